@@ -84,7 +84,7 @@ def run_impl(hists, impl, wd, jobs=8, batch=30, tag='b'):
         for j in range(0, len(idxs), batch):
             batches.append(idxs[j:j + batch])
     res = [None] * len(hists)
-    slow_retries = [6]
+    slow_retries = [12]
 
     def one(args):
         bi, idxs = args
@@ -93,26 +93,31 @@ def run_impl(hists, impl, wd, jobs=8, batch=30, tag='b'):
         r = S.run_script(text, impl_path(impl), None, wd, '%s%d' % (tag, bi), want_model=False, timeout=30 + 3 * len(hs))
         out = []
         for h, i, base in zip(hs, idxs, bases):
+            # a history whose log is complete has run, whatever happened to the launcher afterwards
+            # (mpiexec start-up / tear-down stalls on a loaded machine are not library hangs)
             try:
-                if r.hang or r.crash:
-                    raise KeyError('batch failed')
                 lay, obs = G.observe(h, r.impl, base)
                 out.append((i, dict(h=h, status='ok', lay=lay, obs=obs)))
+                continue
             except (KeyError, IndexError, ValueError):
-                # rerun alone
-                t1, b1 = G.batch_script([h])
-                r1 = S.run_script(t1, impl_path(impl), None, wd, '%s%d-%d' % (tag, bi, i), want_model=False, timeout=60)
-                if r1.hang and slow_retries[0] > 0:
-                    # a loaded machine can exceed the watchdog: one patient retry before calling it a hang
+                pass
+            # rerun alone
+            t1, b1 = G.batch_script([h])
+            r1 = S.run_script(t1, impl_path(impl), None, wd, '%s%d-%d' % (tag, bi, i), want_model=False, timeout=60)
+            for attempt in range(2):
+                if (r1.hang or r1.crash) and not r1.impl and slow_retries[0] > 0:
+                    # nothing was logged: the harness never started (launcher failure); patient retry
                     slow_retries[0] -= 1
-                    r1 = S.run_script(t1, impl_path(impl), None, wd, '%s%d-%dr' % (tag, bi, i), want_model=False, timeout=240)
-                try:
-                    if r1.hang:
-                        out.append((i, dict(h=h, status='hang', lay=None, obs=None, detail='watchdog')))
-                        continue
-                    lay, obs = G.observe(h, r1.impl, b1[0])
-                    out.append((i, dict(h=h, status='ok' if not r1.crash else 'crash', lay=lay, obs=obs, detail=r1.crash)))
-                except (KeyError, IndexError, ValueError) as e:
+                    r1 = S.run_script(t1, impl_path(impl), None, wd, '%s%d-%dr%d' % (tag, bi, i, attempt), want_model=False, timeout=240)
+            try:
+                lay, obs = G.observe(h, r1.impl, b1[0])
+                out.append((i, dict(h=h, status='ok', lay=lay, obs=obs)))
+            except (KeyError, IndexError, ValueError) as e:
+                if not r1.impl:
+                    out.append((i, dict(h=h, status='norun', lay=None, obs=None, detail='launcher produced no log: ' + (r1.stdout or '')[-300:])))
+                elif r1.hang:
+                    out.append((i, dict(h=h, status='hang', lay=None, obs=None, detail='watchdog; last logged line: %s' % (max(r1.impl) ,))))
+                else:
                     out.append((i, dict(h=h, status='crash', lay=None, obs=None, detail=(r1.crash or str(e))[-500:])))
         return out
 
@@ -193,7 +198,8 @@ def evaluate(ctx, hists, impl, wd, variant, stats, tag):
             stats['with_sleeps'] += 1
         if d['status'] != 'ok':
             stats[d['status']] = stats.get(d['status'], 0) + 1
-            oracle_fails.append((h, [dict(kind=d['status'], step=-1, stepkind='run', detail=str(d.get('detail'))[-400:])], d))
+            if d['status'] != 'norun':
+                oracle_fails.append((h, [dict(kind=d['status'], step=-1, stepkind='run', detail=str(d.get('detail'))[-400:])], d))
     for d, m in zip(ok, mres):
         h = d['h']
         fails = G.oracle(h, d['obs'])
@@ -273,20 +279,34 @@ def run(ctx):
                  histories_outside_head_ok=0, oracle_failures=0, model_disagreements=0)
     hists = list(G.directed())
     hists += list(G.exhaustive(2, 0, 1))
+    more = []
     if thorough:
         hists += list(G.exhaustive(2, 1, 5))
     else:
         # a sample of the 3-letter words
         r3 = ctx.rng.fork('w3')
         seen = set()
-        while len(seen) < 150:
+        while len(seen) < 800:
             w = tuple(r3.choice(G.ALPHABET) for _ in range(3))
             if w not in seen:
-                seen.add(w); hists.append(G.word_hist(w, 0, 1))
-    nrand = 2500 if thorough else 300
-    for i in range(nrand):
-        hists.append(G.random_hist(ctx.rng.fork('r-%d' % i), i))
+                seen.add(w); more.append(G.word_hist(w, 0, 1))
+    nrand = 2500 if thorough else 800
+    rnd = [G.random_hist(ctx.rng.fork('r-%d' % i), i) for i in range(nrand)]
+    if thorough:
+        hists += rnd
+    else:
+        # quick: the always-run part is small; the rest runs in interleaved chunks until ~90 s of wall time
+        hists += rnd[:200]
+        rest = rnd[200:]
+        more = [x for pair in zip(more, rest) for x in pair] + more[len(rest):] + rest[len(more):]
     of, dis = evaluate(ctx, hists, impl, wd, variant or 'head', stats, 'a')
+    for j in range(0, len(more), 300):
+        if time.time() - ctx.t0 > 90:
+            stats['quick_truncated'] = 'time budget reached after %d of %d optional histories' % (j, len(more))
+            break
+        of2, dis2 = evaluate(ctx, more[j:j + 300], impl, wd, variant or 'head', stats, 'm%d' % j)
+        of += of2; dis += dis2
+        hists += more[j:j + 300]
     # failing-input search over all words of <= 4 letters.  thorough: always (all 3-letter words, then the
     # 4-letter words without calls that the data mode rejects - such a word acts like a shorter one), in random
     # order under a time budget; quick: all words of <= 3 letters, when a proof or the correspondence is
@@ -302,14 +322,15 @@ def run(ctx):
             ctx.rng.fork('w4').shuffle(e4)       # a time-limited run covers a uniform sample
             stats['search'] += ' + the %d mode-accepted words of 4 letters' % len(e4)
             extra += e4
-        budget = (16 if thorough else 2.5) * 60
+        budget = (16 if thorough else 1.2) * 60
         covered = 0
-        for j in range(0, len(extra), 4000):
+        chunk = 4000 if thorough else 600
+        for j in range(0, len(extra), chunk):
             if time.time() - ctx.t0 > budget:
                 stats['search_truncated'] = 'time budget reached after %d of %d search words' % (covered, len(extra))
                 break
-            of2, dis2 = evaluate(ctx, extra[j:j + 4000], impl, wd, variant or 'head', stats, 's%d' % j)
-            covered += len(extra[j:j + 4000])
+            of2, dis2 = evaluate(ctx, extra[j:j + chunk], impl, wd, variant or 'head', stats, 's%d' % j)
+            covered += len(extra[j:j + chunk])
             of += of2; dis += dis2
         stats['search_words_run'] = covered
     ctx.cov['rule'] = ('histories = directed witnesses + all words over the 19-letter alphabet %s up to the stated length '
@@ -317,7 +338,9 @@ def run(ctx):
                        'CDF-1/2/5, iput/bput/varn, subsets, sleeps); non-trivial = at least one record write completes and the '
                        'history ran to the end; distinct = distinct script text' % ','.join(G.ALPHABET))
     ctx.cov['distribution'] = stats
-    ctx.cov['traces_validated_against_impl'] = stats['histories']
+    ctx.cov['traces_validated_against_impl'] = stats['histories'] - stats.get('norun', 0)
+    if stats.get('norun', 0) * 20 > stats['histories']:
+        raise C.BuildFailure('the MPI launcher failed to start the harness for %d of %d histories' % (stats['norun'], stats['histories']))
     report(ctx, of, dis, proof_ok, pr, variant, vdetail)
 
 
